@@ -223,6 +223,46 @@ theorem shared_basis_coded_counterexample :
     ¬ Same ((runCalls [⟨skBasisStandardizeCoded, [0]⟩] sharedBasisHeap).cell 1) (sharedBasisHeap.cell 1) := by
   unfold Same; decide
 
+/-! ### the result belongs to the caller -/
+
+/-- Result independence.  If a method still passes the check when the owner's edits of the
+result (`pop`, `reverse`, `append`, `del`, `popitem` on the returned container) are appended to
+it, then those edits leave every cell that existed before the call — the inputs — unchanged. -/
+theorem result_independent (sk : Skel) (h : resultOwned sk = true) (e : Env) (h0 : Heap) :
+    ∀ r, r < h0.next → Same ((exec (sk.body ++ ownerEdits sk.ret) e h0).2.cell r) (h0.cell r) :=
+  check_sound (sk.body ++ ownerEdits sk.ret) [] e h0 h0.next h (fun _ hv => by simp at hv) (Nat.le_refl _)
+
+/-- every modelled method of the target tree returns a container of its own -/
+theorem table_results_owned :
+    ∀ sk ∈ [skCopyArgvals, skShareArgvals, skFresh, skRescale, skCovarianceDense, skToBasisDense, skConcatIrregular,
+      skBasisShare, skBasisRescale, skBasisCovariance, skBasisToGrid, skBasisStandardize, skBasisStandardizeNoCenter,
+      skMultiCopyArgvals, skMultiShareArgvals, skMultiCovariance, skMultiRescale, skMultiToBasis, skMultiToGrid,
+      skMultiOnPoints, skMultiCovarianceOnPoints, skGetitemView, skMultiGetitemView, skTransform, skInverseTransform],
+      resultOwned sk = true := by
+  decide
+
+/-- `fd[idx]` on irregular data returns new dictionaries for every index list -/
+theorem getitem_irregular_result_owned (idx : List Nat) : resultOwned (skGetitemIrregular idx) = true := rfl
+
+/-- Handing back the input container is refused (`return self`; `MultivariateFunctionalData.copy()`
+of the current tree, whose `.data` is the original object): the method itself writes nothing, but
+the owner's first `pop` on the result edits the input — on the demo heap the fields of cell 0. -/
+theorem returns_input_container_counterexample :
+    freshTargets skReturnsInputContainer = true ∧ resultOwned skReturnsInputContainer = false ∧
+    ¬ Same ((exec (skReturnsInputContainer.body ++ ownerEdits skReturnsInputContainer.ret) (fun _ => 0) demoHeap).2.cell 0)
+        (demoHeap.cell 0) := by
+  refine ⟨by decide, by decide, ?_⟩
+  unfold Same; decide
+
+/-- What the property asks for every data-returning public method; it fails for `copy` on the
+current tree (open finding C16-multivariate-copy-shares-container), `table_results_owned` is the
+part that holds. -/
+def results_owned_full_statement : Prop :=
+  ∀ sk ∈ [skMultiToGrid, skReturnsInputContainer], resultOwned sk = true
+
+theorem counterexample : ¬ results_owned_full_statement := by
+  unfold results_owned_full_statement; decide
+
 /-! ### the code before the repairs fails the check, and really changes an input -/
 
 /-- `BasisFunctionalData.standardize` as coded before the repair writes through the basis object
